@@ -1,0 +1,143 @@
+//go:build verif
+
+package sharding
+
+import (
+	"context"
+	"sort"
+	"time"
+
+	corev1 "k8s.io/api/core/v1"
+	metav1 "k8s.io/apimachinery/pkg/apis/meta/v1"
+	k8slisterv1 "k8s.io/client-go/listers/core/v1"
+	"k8s.io/client-go/tools/cache"
+	"k8s.io/client-go/util/workqueue"
+
+	vcfake "volcano.sh/apis/pkg/client/clientset/versioned/fake"
+	shardlisters "volcano.sh/apis/pkg/client/listers/shard/v1alpha1"
+)
+
+// VerifPublisher is a ShardingController wired to a fake volcano clientset
+// and to listers over indexers the caller fills, so that an external harness
+// can drive the real publication path (syncShards, the worker's
+// processNextItem / syncHandler, applyAssignment, createShard) synchronously
+// and read the NodeShard objects it leaves behind. Informers are not started;
+// the NodeShard lister is refreshed from the fake API server after every
+// processed item.
+type VerifPublisher struct {
+	sc     *ShardingController
+	nodes  cache.Indexer
+	shards cache.Indexer
+	client *vcfake.Clientset
+}
+
+// VerifNewPublisher builds the controller state Initialize + applyShardingConfig would build.
+func VerifNewPublisher(cfg *ShardingConfig) *VerifPublisher {
+	p := &VerifPublisher{
+		nodes:  cache.NewIndexer(cache.MetaNamespaceKeyFunc, cache.Indexers{}),
+		shards: cache.NewIndexer(cache.MetaNamespaceKeyFunc, cache.Indexers{}),
+		client: vcfake.NewSimpleClientset(),
+	}
+	sc := &ShardingController{
+		ctx:              context.Background(),
+		vcClient:         p.client,
+		nodeLister:       k8slisterv1.NewNodeLister(p.nodes),
+		shardLister:      shardlisters.NewNodeShardLister(p.shards),
+		nodeMetricsCache: make(map[string]*NodeMetrics),
+		assignmentCache:  &AssignmentCache{Assignments: make(map[string]*ShardAssignment)},
+		nodeShardQueue: workqueue.NewTypedRateLimitingQueueWithConfig(
+			workqueue.DefaultTypedControllerRateLimiter[string](),
+			workqueue.TypedRateLimitingQueueConfig[string]{Name: controllerName + "-verif"},
+		),
+	}
+	sc.schedulerConfigs = VerifSchedulerConfigs(cfg)
+	sc.shardingManager = NewShardingManager(sc.schedulerConfigs, sc)
+	p.sc = sc
+	return p
+}
+
+// SetNodes replaces the content of the node informer cache.
+func (p *VerifPublisher) SetNodes(nodes []*corev1.Node) {
+	items := make([]interface{}, 0, len(nodes))
+	for _, n := range nodes {
+		items = append(items, n)
+	}
+	if err := p.nodes.Replace(items, ""); err != nil {
+		panic(err)
+	}
+}
+
+// SetMetrics replaces the node metrics cache (what the pod/node event handlers maintain).
+func (p *VerifPublisher) SetMetrics(m map[string]*NodeMetrics) {
+	p.sc.metricsMutex.Lock()
+	defer p.sc.metricsMutex.Unlock()
+	p.sc.nodeMetricsCache = m
+}
+
+func (p *VerifPublisher) refreshShards() {
+	l, err := p.client.ShardV1alpha1().NodeShards().List(context.Background(), metav1.ListOptions{})
+	if err != nil {
+		panic(err)
+	}
+	items := make([]interface{}, 0, len(l.Items))
+	for i := range l.Items {
+		items = append(items, &l.Items[i])
+	}
+	if err := p.shards.Replace(items, ""); err != nil {
+		panic(err)
+	}
+}
+
+// Drain runs the worker's processNextItem until the shard queue is empty.
+func (p *VerifPublisher) Drain() {
+	for p.sc.nodeShardQueue.Len() > 0 {
+		p.sc.processNextItem()
+		p.refreshShards()
+	}
+}
+
+// SyncShards is one global reconcile: syncShards, then the worker drains the queue.
+func (p *VerifPublisher) SyncShards() {
+	p.refreshShards()
+	p.sc.syncShards()
+	p.Drain()
+}
+
+// EnqueueShard is what the NodeShard event handlers do; Drain processes it.
+func (p *VerifPublisher) EnqueueShard(name string) { p.sc.enqueueShard(name) }
+
+// AgeAssignmentCache moves the assignment cache's timestamp into the past.
+func (p *VerifPublisher) AgeAssignmentCache(d time.Duration) {
+	p.sc.cacheMutex.Lock()
+	defer p.sc.cacheMutex.Unlock()
+	p.sc.assignmentCache.Timestamp = p.sc.assignmentCache.Timestamp.Add(-d)
+}
+
+// Published returns Spec.NodesDesired of every NodeShard on the fake API server.
+func (p *VerifPublisher) Published() map[string][]string {
+	l, err := p.client.ShardV1alpha1().NodeShards().List(context.Background(), metav1.ListOptions{})
+	if err != nil {
+		panic(err)
+	}
+	out := map[string][]string{}
+	for i := range l.Items {
+		out[l.Items[i].Name] = append([]string{}, l.Items[i].Spec.NodesDesired...)
+	}
+	return out
+}
+
+// Calculated returns the assignment cache's content (what syncShards last computed), names sorted.
+func (p *VerifPublisher) Calculated() map[string][]string {
+	p.sc.cacheMutex.Lock()
+	defer p.sc.cacheMutex.Unlock()
+	out := map[string][]string{}
+	names := []string{}
+	for n := range p.sc.assignmentCache.Assignments {
+		names = append(names, n)
+	}
+	sort.Strings(names)
+	for _, n := range names {
+		out[n] = append([]string{}, p.sc.assignmentCache.Assignments[n].NodesDesired...)
+	}
+	return out
+}
